@@ -276,7 +276,8 @@ package formula
 
 // tokinv: what Scan establishes about the current token. pinv: a primed parser.
 //@ spec tokinv(s *Scanner) bool := (s.token == SK_EndOfFile ==> s.pos == s.end && s.tokenPos == s.end) && (s.token != SK_EndOfFile ==> s.pos > s.tokenPos) && (isIdTok(s.token) ==> len(s.tokenValue) > 0)
-//@ spec pinv(p *Parser) bool := p != nil && p.scanner != nil && scanFrame(p.scanner) && !isnil(p.scanner.onError) && owner(p.scanner) == p && tokinv(p.scanner)
+//@ spec pinv0(p *Parser) bool := p != nil && p.scanner != nil && scanFrame(p.scanner) && !isnil(p.scanner.onError) && owner(p.scanner) == p
+//@ spec pinv(p *Parser) bool := pinv0(p) && tokinv(p.scanner)
 //@ spec rem(p *Parser) int := p.scanner.end - p.scanner.startPos
 //@ spec tok(p *Parser) int := p.scanner.token
 //@ spec ndp(p *Parser) int := len(p.parseDiagnostics)
@@ -290,11 +291,11 @@ package formula
 
 //@ func (*Parser).nextToken
 //@   tags [C01]
-//@   requires pinv(p)
+//@   requires pinv0(p)
 //@   assigns parserState(p)
 //@   panics never
 //@   ensures pstep(p) && result == tok(p) && spos(p) == old(p.scanner.pos)
-//@   ensures old(tok(p)) != SK_EndOfFile ==> rem(p) < old(rem(p))
+//@   ensures old(tokinv(p.scanner)) && old(tok(p)) != SK_EndOfFile ==> rem(p) < old(rem(p))
 
 //@ func (*Parser).errorAtCurrentToken
 //@   tags [C01]
@@ -619,3 +620,115 @@ package formula
 //@   ensures pstep(p) && result != nil && fresh(result)
 //@   loop 1: invariant pinv(p) && rem(p) <= old(rem(p)) && ndp(p) >= old(ndp(p)) && list != nil && fresh(list)
 //@           decreases rem(p)
+
+// ---------------------------------------------------------------------------
+// Entry points of parsing
+// ---------------------------------------------------------------------------
+
+// Diagnostics are immutable records with a non-negative range.
+//@ objinv[C15] Diagnostic(d) := d.Start >= 0 && d.Length >= 0
+//@ onlywrites Diagnostic.Start: CreateFileDiagnostic
+//@ onlywrites Diagnostic.Length: CreateFileDiagnostic
+//@ onlywrites Diagnostic.Code: CreateFileDiagnostic
+//@ onlywrites Diagnostic.Category: CreateFileDiagnostic
+//@ onlywrites Diagnostic.MessageText: CreateFileDiagnostic
+//@ onlywrites Diagnostic.File: CreateFileDiagnostic
+
+//@ func (*Scanner).SetTextPos
+//@   tags [C01,C14]
+//@   requires s != nil && textPos >= 0
+//@   assigns scanState(s)
+//@   panics never
+//@   ensures s.pos == textPos && s.startPos == textPos && s.tokenPos == textPos && s.token == SK_Unknown
+
+//@ func (*Scanner).SetText
+//@   tags [C01,C14]
+//@   requires s != nil
+//@   assigns scanState(s), s.end, s.text
+//@   panics never
+//@   ensures s.pos == 0 && s.startPos == 0 && s.tokenPos == 0 && s.token == SK_Unknown && s.text == newText && s.end == len(newText)
+
+//@ func CreateScanner
+//@   tags [C01,C14]
+//@   panics never
+//@   ensures result != nil && fresh(result) && result.text == text && result.onError == onError && result.end == len(text)
+//@   ensures result.pos == 0 && result.startPos == 0 && result.tokenPos == 0 && result.token == SK_Unknown
+
+// On normal return the whole input was consumed and the tree is attached.
+//@ func (*Parser).parseSourceFileWorker
+//@   tags [C01,C15]
+//@   requires p != nil && len(p.parseDiagnostics) == 0
+//@   assigns p.sourceCode, p.scanner, p.parseDiagnostics, p.nodeCount, p.identifierCount, p.parsingCtx
+//@   ensures result != nil && fresh(result) && result == p.sourceCode && result.Text == p.sourceText && len(result.LineStarts) == 0
+//@   ensures[C01] okx(result.Expression) && result.EndOfFileToken != nil && result.EndOfFileToken.Token == SK_EndOfFile
+//@   ensures[C01] result.Diagnostics == p.parseDiagnostics && diagsok(p)
+//@   ensures[C15] result.pos == 0 && result.end == len(result.Text) && xpos(result.Expression) == 0 && xend(result.Expression) <= len(result.Text)
+
+// Exactly one of: an error, or a tree without diagnostics. Never a panic.
+//@ func ParseSourceCode
+//@   tags [C01,C15]
+//@   panics never
+//@   ensures[C01] (err == nil) <==> (source != nil && len(source.Diagnostics) == 0)
+//@   ensures[C01] err == nil ==> okx(source.Expression) && source.EndOfFileToken != nil && source.EndOfFileToken.Token == SK_EndOfFile
+//@   ensures[C15] err == nil ==> source.pos == 0 && source.end == len(content) && xpos(source.Expression) == 0
+
+// ---------------------------------------------------------------------------
+// Line table
+// ---------------------------------------------------------------------------
+
+// starts(r, n): a line-start table for a text of n bytes: begins with 0, strictly ascending, inside the text
+//@ spec ascending(r []int) bool := forall i int, j int :: 0 <= i && i < j && 0 <= j && j < len(r) ==> r[i] < r[j]
+//@ spec starts(r []int, n int) bool := len(r) >= 1 && r[0] == 0 && ascending(r) && (forall i int :: 0 <= i && i < len(r) ==> r[i] <= n)
+
+//@ func BinarySearch
+//@   tags [C15]
+//@   requires ascending(array)
+//@   panics never
+//@   noalloc
+//@   ensures result >= 0 ==> result < len(array) && array[result] == value
+//@   ensures result < 0 ==> 0 <= -result-1 && -result-1 <= len(array)
+//@   ensures result < 0 ==> (forall k int :: 0 <= k && k < -result-1 ==> array[k] < value) && (forall k int :: -result-1 <= k && k < len(array) ==> array[k] > value)
+//@   loop 1: invariant 0 <= low && high < len(array) && low <= high + 1
+//@           invariant (forall k int :: 0 <= k && k < low ==> array[k] < value) && (forall k int :: high < k && k < len(array) ==> array[k] > value)
+//@           decreases high - low + 1
+
+//@ func ComputeLineStarts
+//@   tags [C15,C01]
+//@   panics never
+//@   ensures starts(result, len(text))
+//@   loop 1: invariant 0 <= lineStart && lineStart <= pos && pos <= len(text)
+//@           invariant ascending(result) && (forall i int :: 0 <= i && i < len(result) ==> result[i] < lineStart)
+//@           invariant len(result) == 0 ? lineStart == 0 : result[0] == 0
+//@           decreases len(text) - pos
+
+//@ func PositionFromOffsetWithCache
+//@   tags [C15,C01]
+//@   requires starts(lineStarts, len(content)) && offset >= 0
+//@   panics never
+//@   ensures[C15] offset <= len(content) ==> result1 == nil && 0 <= result0.Line && result0.Line < len(lineStarts) && lineStarts[result0.Line] <= offset && (result0.Line + 1 < len(lineStarts) ==> offset < lineStarts[result0.Line + 1]) && result0.Column == offset - lineStarts[result0.Line]
+
+//@ func GetLineStarts
+//@   tags [C15,C01]
+//@   requires file != nil && (len(file.LineStarts) > 0 ==> starts(file.LineStarts, len(file.Text)))
+//@   assigns file.LineStarts
+//@   panics never
+//@   ensures result == file.LineStarts && starts(result, len(file.Text))
+
+//@ func GetFileLineAndCharacterFromPosition
+//@   tags [C15,C01]
+//@   requires file != nil && position >= 0 && (len(file.LineStarts) > 0 ==> starts(file.LineStarts, len(file.Text)))
+//@   assigns file.LineStarts
+//@   panics never
+//@   ensures starts(file.LineStarts, len(file.Text))
+//@   ensures[C15] position <= len(file.Text) ==> 0 <= result.Line && result.Line < len(file.LineStarts) && file.LineStarts[result.Line] <= position && (result.Line + 1 < len(file.LineStarts) ==> position < file.LineStarts[result.Line + 1]) && result.Column == position - file.LineStarts[result.Line]
+
+//@ func PositionToLineAndCharacter
+//@   tags [C15]
+//@   requires pos >= 0
+//@   panics never
+
+//@ func FormatDiagnostic
+//@   tags [C01,C15]
+//@   requires source != nil && diagnostic != nil && (len(source.LineStarts) > 0 ==> starts(source.LineStarts, len(source.Text)))
+//@   assigns source.LineStarts
+//@   panics never
